@@ -462,6 +462,8 @@ def str_method(I, self, meth, args, kwargs, fr, node):
             for x in list(args) + list(kwargs.values()):
                 I.to_str_call(x, fr)
         return VStr(ctx._const('str.' + meth, z3.StringSort()), s.kind)
+    if meth == 'splitlines' and I.reg.extern_contract('str.splitlines') is not None and not args:
+        return I.call_extern('str.splitlines', [s], {}, fr)
     if meth == 'split' and I.reg.extern_contract('str.split') is not None and len(args) == 1:
         return I.call_extern('str.split', [s, args[0]], {}, fr)
     if meth == 'splitlines' or meth == 'split':
